@@ -47,6 +47,14 @@ CLAIMED = {
         design="DESIGN.md section 2, C06",
         technique="symbolic execution with havoc/Givens kernel stubs; identity validity queries (z3) + rounding-model query on sqrt arguments",
     ),
+    "C07": dict(
+        text="Descent by certificate: the real CP-ALS, HALS-CP, HOOI and PARAFAC2-projection sweeps run symbolically with recording kernel stubs; for every block update the "
+        "arguments handed to solve / hals_nnls / svd are proved entrywise identical to the normal-equation data of the block least-squares problem rebuilt independently from "
+        "the current iterate (a harness-side mirror of the sweep's data flow), the generic descent identity and the 1-D clipped-quadratic lemma are solver-proved, and the real "
+        "hals_nnls row update is proved to be the clipped exact coordinate minimiser. Optimality of SVD-based block updates (Ky Fan, Procrustes) is the trusted SVD contract.",
+        design="DESIGN.md section 2, C07",
+        technique="symbolic execution with recording stubs; polynomial-identity certificates + solver-proved generic lemmas (z3)",
+    ),
     "C08": dict(
         text="The real decomposition entry points (parafac, non-negative CP both variants, tucker/partial_tucker, TT-SVD, TT-matrix, TR-SVD, PARAFAC2) are executed "
         "symbolically; the tolerance is a solver variable so that the convergence-break and the iteration-cap exits are both explored, and on every feasible path the "
